@@ -83,7 +83,7 @@ def replay(item):
     before_chunks = {k: v for k, v in chunks(canon_before).items() if k not in named}
     obs = []
     p = os.path.join(_st["dir"], "t%d.oct.md" % os.getpid())
-    for route, merge in (("tool_dot", False), ("tool_merge", True), ("cli", False)):
+    for route, merge in (("tool_dot", False), ("tool_merge", True), ("cli", False), ("tool_mutations", False)):
         with open(p, "w", encoding="utf-8", newline="") as f:
             f.write(text)
         ok = True
@@ -92,6 +92,13 @@ def replay(item):
                 if route == "cli":
                     rr = CliRunner().invoke(cli, ["write", p, "--changes", json.dumps(ch)], catch_exceptions=True)
                     ok = ok and rr.exit_code == 0
+                elif route == "tool_mutations" and len(ch) == 1 and next(iter(ch)).startswith("META."):
+                    # the `mutations` parameter (META field overrides, both modes): content mode with the file's own text
+                    tool = _st.setdefault("tool", WriteTool())
+                    with open(p, encoding="utf-8", newline="") as f:
+                        cur = f.read()
+                    r = run_async(tool.execute(target_path=p, content=cur, mutations={next(iter(ch))[5:]: next(iter(ch.values()))}))
+                    ok = ok and r.get("status") == "success"
                 else:
                     # one long-lived tool per process, as the MCP server keeps; a dry-run preview of a DIFFERENT amend comes first
                     tool = _st.setdefault("tool", WriteTool())
